@@ -530,4 +530,317 @@ theorem parseOuter_apkFile (pre : Bytes) (ps : List Pair) (cdRest mid : Bytes) (
   simpa using hw
 
 
+
+/-! an archive without a signing block -/
+theorem parseOuter_plainFile (pre cdRest mid : Bytes) (hmid : mid.length = 12)
+    (hpre : 24 ≤ pre.length) (hoc32 : pre.length < 2 ^ 32)
+    (hmagic : pre.drop (pre.length - 16) ≠ magic) :
+    parseOuter (plainFile pre cdRest mid) = ⟨some (false, false, false), [], none⟩ := by
+  obtain ⟨c1, c2, c3⟩ := consts_eq
+  have hn : (plainFile pre cdRest mid).length = pre.length + cdRest.length + 26 := by
+    simp only [plainFile, List.length_append, encU32_length, hmid, zipCdSig, zipEocdSig,
+      List.length_cons, List.length_nil]
+    omega
+  obtain ⟨q, hq⟩ : ∃ q, q = pre.length + cdRest.length + 4 := ⟨_, rfl⟩
+  have hr0 : readAt (plainFile pre cdRest mid) q 4 = some zipEocdSig := by
+    have := readAt_mid (pre ++ (zipCdSig ++ cdRest)) zipEocdSig (mid ++ (encU32 pre.length ++ [0, 0])) q 4
+        (by simp only [List.length_append, zipCdSig, List.length_cons, List.length_nil]; omega) rfl
+    simpa only [plainFile, List.append_assoc] using this
+  have hr1 : readAt (plainFile pre cdRest mid) (q + 4) 16 = some (mid ++ encU32 pre.length) := by
+    have := readAt_mid (pre ++ (zipCdSig ++ (cdRest ++ zipEocdSig))) (mid ++ encU32 pre.length) [0, 0] (q + 4) 16
+      (by simp only [List.length_append, zipCdSig, zipEocdSig, List.length_cons, List.length_nil]; omega)
+      (by simp only [List.length_append, hmid, encU32_length])
+    simpa only [plainFile, List.append_assoc] using this
+  have hr2 : readAt (plainFile pre cdRest mid) pre.length 4 = some zipCdSig := by
+    have := readAt_mid pre zipCdSig (cdRest ++ (zipEocdSig ++ (mid ++ (encU32 pre.length ++ [0, 0]))))
+      pre.length 4 rfl rfl
+    simpa only [plainFile, List.append_assoc] using this
+  have hr3 : readAt (plainFile pre cdRest mid) (pre.length - 24) 24 = some (pre.drop (pre.length - 24)) := by
+    have hsplit : pre = pre.take (pre.length - 24) ++ pre.drop (pre.length - 24) := by simp
+    have := readAt_mid (pre.take (pre.length - 24)) (pre.drop (pre.length - 24))
+      (zipCdSig ++ (cdRest ++ (zipEocdSig ++ (mid ++ (encU32 pre.length ++ [0, 0]))))) (pre.length - 24) 24
+      (by simp only [List.length_take]; omega) (by simp only [List.length_drop]; omega)
+    rw [← List.append_assoc, ← hsplit] at this
+    simpa only [plainFile] using this
+  have hd8 : (pre.drop (pre.length - 24)).drop 8 = pre.drop (pre.length - 16) := by
+    rw [List.drop_drop]; congr 1; omega
+  generalize plainFile pre cdRest mid = f at hn hr0 hr1 hr2 hr3 ⊢
+  have hscan : scanEocd f (f.length - 1 - 20) = some q := by
+    have : f.length - 1 - 20 = q + 1 := by omega
+    rw [this, scanEocd, readAt_some hr0, c1]; simp
+  have hoc' : leNat ((mid ++ encU32 pre.length).drop 12) = pre.length := by
+    rw [List.drop_left' hmid]; exact leNat_encU32 _ hoc32
+  unfold parseOuter
+  simp only [hscan, hr1, hoc', hr2, hr3, hd8, c2, c3]
+  have h0 : ¬ pre.length = 0 := by omega
+  simp [h0, hmagic]
+
+theorem parseScheme_plainFile (sc : Scheme) (pre cdRest mid : Bytes) (hmid : mid.length = 12)
+    (hpre : 24 ≤ pre.length) (hoc32 : pre.length < 2 ^ 32)
+    (hmagic : pre.drop (pre.length - 16) ≠ magic) :
+    parseScheme sc (plainFile pre cdRest mid) = .ok [] := by
+  unfold parseScheme
+  rw [parseOuter_plainFile pre cdRest mid hmid hpre hoc32 hmagic]
+  cases sc <;> rfl
+
+/-! fuel is never exhausted -/
+theorem readU32_ok_length {s : Bytes} {n : Nat} {r : Bytes} (h : readU32 s = .ok (n, r)) :
+    r.length + 4 = s.length := by
+  match s, h with
+  | a :: b :: c :: d :: r', h =>
+    simp only [readU32, Except.ok.injEq, Prod.mk.injEq] at h
+    obtain ⟨_, rfl⟩ := h
+    simp
+  | [], h => simp [readU32] at h
+  | [_], h => simp [readU32] at h
+  | [_, _], h => simp [readU32] at h
+  | [_, _, _], h => simp [readU32] at h
+
+theorem readU32_err {s : Bytes} {e : Err} (h : readU32 s = .error e) : e = .struct := by
+  match s, h with
+  | a :: b :: c :: d :: r', h => simp [readU32] at h
+  | [], h => simp [readU32] at h; exact h.symm
+  | [_], h => simp [readU32] at h; exact h.symm
+  | [_, _], h => simp [readU32] at h; exact h.symm
+  | [_, _, _], h => simp [readU32] at h; exact h.symm
+
+/-- the fuel of the digest / signature loop is never exhausted: every iteration consumes ≥ 4 bytes -/
+theorem parseSeqF_fuel_ok : ∀ (fuel : Nat) (s : Bytes), s.length < fuel →
+    parseSeqF fuel s ≠ .error .fuel
+  | 0, s, h => by omega
+  | fuel + 1, s, h => by
+    rw [parseSeqF]
+    split
+    · simp
+    · simp only [bind, Except.bind]
+      cases h1 : readU32 s with
+      | error e => have := readU32_err h1; simp [this]
+      | ok p1 =>
+        obtain ⟨elen, s1⟩ := p1
+        have hl := readU32_ok_length h1
+        simp only [readUpTo]
+        cases h2 : readU32 (s1.take elen) with
+        | error e => have := readU32_err h2; simp [this]
+        | ok p2 =>
+          simp only []
+          cases h3 : readU32 p2.2 with
+          | error e => have := readU32_err h3; simp [this]
+          | ok p3 =>
+            simp only []
+            have ih := parseSeqF_fuel_ok fuel (s1.drop elen) (by simp only [List.length_drop]; omega)
+            cases h4 : parseSeqF fuel (s1.drop elen) with
+            | error e => simp only [h4] at ih; simpa using ih
+            | ok r => simp
+
+theorem parseSeq_fuel_ok (s : Bytes) : parseSeq s ≠ .error .fuel :=
+  parseSeqF_fuel_ok _ s (by omega)
+
+
+
+theorem parseCertsF_fuel_ok : ∀ (fuel budget : Nat) (s : Bytes), s.length < fuel →
+    parseCertsF fuel budget s ≠ .error .fuel
+  | 0, _, s, h => by omega
+  | fuel + 1, budget, s, h => by
+    rw [parseCertsF]
+    split
+    · simp
+    · simp only [bind, Except.bind]
+      cases h1 : readU32 s with
+      | error e => have := readU32_err h1; simp [this]
+      | ok p1 =>
+        obtain ⟨l, s1⟩ := p1
+        have hl := readU32_ok_length h1
+        simp only [readUpTo]
+        have ih := parseCertsF_fuel_ok fuel (budget - (4 + (s1.take l).length)) (s1.drop l)
+          (by simp only [List.length_drop]; omega)
+        cases h4 : parseCertsF fuel (budget - (4 + (s1.take l).length)) (s1.drop l) with
+        | error e => simp only [h4] at ih; simpa using ih
+        | ok r => simp
+
+/-- the fuel of the pair walk is never exhausted: every iteration consumes ≥ 12 bytes -/
+theorem walkF_fuel_ok : ∀ (fuel tl : Nat) (rest : Bytes) (acc : List Block), rest.length < fuel →
+    (walkF fuel tl rest acc).2 ≠ some .fuel
+  | 0, _, rest, _, h => by omega
+  | fuel + 1, tl, rest, acc, h => by
+    rw [walkF]
+    split
+    · split
+      · simp
+      · simp only []
+        split
+        · simp
+        · split
+          · simp
+          · exact walkF_fuel_ok fuel tl _ _ (by simp only [List.length_drop]; omega)
+    · simp
+
+theorem walkF_err_ne_fuel {fu tl : Nat} {r : Bytes} {acc bs : List Block} {e : Err}
+    (h : r.length < fu) (h2 : walkF fu tl r acc = (bs, some e)) : e ≠ .fuel := by
+  have := walkF_fuel_ok fu tl r acc h
+  rw [h2] at this
+  simpa using this
+
+theorem parseOuter_fuel_ok (f : Bytes) : (parseOuter f).err ≠ some .fuel := by
+  unfold parseOuter
+  simp only []
+  repeat' split
+  all_goals first
+    | (simp; done)
+    | (rename_i heq
+       simp only [ne_eq, Option.some.injEq]
+       exact walkF_err_ne_fuel (by simp only [List.length_drop]; omega) heq)
+
+def NoFuel {α : Type} (x : Except Err α) : Prop := x ≠ .error .fuel
+
+theorem NoFuel.bind {α β : Type} {x : Except Err α} {f : α → Except Err β} (hx : NoFuel x)
+    (hf : ∀ a, x = .ok a → NoFuel (f a)) : NoFuel (x >>= f) := by
+  cases x with
+  | error e =>
+    simp only [NoFuel, ne_eq, Except.error.injEq] at hx
+    show (Except.error e : Except Err β) ≠ .error .fuel
+    simpa using hx
+  | ok a => exact hf a rfl
+
+theorem noFuel_readU32 (s : Bytes) : NoFuel (readU32 s) := by
+  intro h; have := readU32_err h; simp at this
+
+theorem noFuel_ok {α : Type} (a : α) : NoFuel (Except.ok a : Except Err α) := by simp [NoFuel]
+
+theorem bind_ok {α β : Type} {x : Except Err α} {f : α → Except Err β} {b : β}
+    (h : x >>= f = .ok b) : ∃ a, x = .ok a ∧ f a = .ok b := by
+  cases x with
+  | error e => simp [bind, Except.bind] at h
+  | ok a => exact ⟨a, rfl, h⟩
+
+theorem noFuel_parseSignedData (v3 : Bool) (sd : Bytes) : NoFuel (parseSignedData v3 sd) := by
+  unfold parseSignedData
+  refine NoFuel.bind (noFuel_readU32 _) ?_
+  rintro ⟨a, t0⟩ _
+  simp only [readUpTo]
+  refine NoFuel.bind (parseSeq_fuel_ok _) ?_
+  intro ds _
+  refine NoFuel.bind (noFuel_readU32 _) ?_
+  rintro ⟨lc, t2⟩ _
+  simp only []
+  refine NoFuel.bind (parseCertsF_fuel_ok _ _ _ (by omega)) ?_
+  rintro ⟨cs, t3⟩ _
+  simp only []
+  split
+  · refine NoFuel.bind (noFuel_readU32 _) ?_
+    rintro ⟨mn, t4⟩ _
+    refine NoFuel.bind (noFuel_readU32 _) ?_
+    rintro ⟨mx, t5⟩ _
+    refine NoFuel.bind (noFuel_readU32 _) ?_
+    rintro ⟨la, t6⟩ _
+    exact noFuel_ok _
+  · refine NoFuel.bind (noFuel_readU32 _) ?_
+    rintro ⟨la, t6⟩ _
+    exact noFuel_ok _
+
+theorem noFuel_parseSigner (v3 : Bool) (s : Bytes) : NoFuel (parseSigner v3 s) := by
+  unfold parseSigner
+  refine NoFuel.bind (noFuel_readU32 _) ?_
+  rintro ⟨a, s1⟩ _
+  refine NoFuel.bind (noFuel_readU32 _) ?_
+  rintro ⟨b, s2⟩ _
+  simp only [readUpTo]
+  refine NoFuel.bind (noFuel_parseSignedData _ _) ?_
+  intro sd _
+  split
+  · refine NoFuel.bind (noFuel_readU32 _) ?_
+    rintro ⟨mn, s4⟩ _
+    refine NoFuel.bind (noFuel_readU32 _) ?_
+    rintro ⟨mx, s5⟩ _
+    refine NoFuel.bind (noFuel_readU32 _) ?_
+    rintro ⟨ls, s6⟩ _
+    simp only []
+    refine NoFuel.bind (parseSeq_fuel_ok _) ?_
+    intro sg _
+    refine NoFuel.bind (noFuel_readU32 _) ?_
+    rintro ⟨lk, s8⟩ _
+    exact noFuel_ok _
+  · refine NoFuel.bind (noFuel_readU32 _) ?_
+    rintro ⟨ls, s6⟩ _
+    simp only []
+    refine NoFuel.bind (parseSeq_fuel_ok _) ?_
+    intro sg _
+    refine NoFuel.bind (noFuel_readU32 _) ?_
+    rintro ⟨lk, s8⟩ _
+    exact noFuel_ok _
+
+/-- a parsed signer consumed at least its four-byte length prefix -/
+theorem parseSigner_ok_length {v3 : Bool} {s : Bytes} {sg : Signer} {r : Bytes}
+    (h : parseSigner v3 s = .ok (sg, r)) : r.length + 4 ≤ s.length := by
+  unfold parseSigner at h
+  obtain ⟨⟨a, s1⟩, h1, h⟩ := bind_ok h
+  have l1 := readU32_ok_length h1
+  obtain ⟨⟨b, s2⟩, h2, h⟩ := bind_ok h
+  have l2 := readU32_ok_length h2
+  simp only [readUpTo] at h
+  obtain ⟨sd, _, h⟩ := bind_ok h
+  split at h
+  · obtain ⟨⟨mn, s4⟩, h4, h⟩ := bind_ok h
+    have l4 := readU32_ok_length h4
+    obtain ⟨⟨mx, s5⟩, h5, h⟩ := bind_ok h
+    have l5 := readU32_ok_length h5
+    obtain ⟨⟨ls, s6⟩, h6, h⟩ := bind_ok h
+    have l6 := readU32_ok_length h6
+    simp only [] at h
+    obtain ⟨sgs, _, h⟩ := bind_ok h
+    obtain ⟨⟨lk, s8⟩, h8, h⟩ := bind_ok h
+    have l8 := readU32_ok_length h8
+    simp only [Except.ok.injEq, Prod.mk.injEq] at h
+    obtain ⟨_, rfl⟩ := h
+    simp only [List.length_drop] at *
+    omega
+  · obtain ⟨⟨ls, s6⟩, h6, h⟩ := bind_ok h
+    have l6 := readU32_ok_length h6
+    simp only [] at h
+    obtain ⟨sgs, _, h⟩ := bind_ok h
+    obtain ⟨⟨lk, s8⟩, h8, h⟩ := bind_ok h
+    have l8 := readU32_ok_length h8
+    simp only [Except.ok.injEq, Prod.mk.injEq] at h
+    obtain ⟨_, rfl⟩ := h
+    simp only [List.length_drop] at *
+    omega
+
+theorem parseSignersF_fuel_ok (v3 : Bool) : ∀ (fuel : Nat) (s : Bytes), s.length < fuel →
+    NoFuel (parseSignersF v3 fuel s)
+  | 0, s, h => by omega
+  | fuel + 1, s, h => by
+    rw [parseSignersF]
+    split
+    · exact noFuel_ok _
+    · refine NoFuel.bind (noFuel_parseSigner _ _) ?_
+      rintro ⟨sg, r⟩ hsg
+      have := parseSigner_ok_length hsg
+      refine NoFuel.bind (parseSignersF_fuel_ok v3 fuel r (by omega)) ?_
+      intro rest _
+      exact noFuel_ok _
+
+theorem parseValue_fuel_ok (v3 : Bool) (b : Bytes) : parseValue v3 b ≠ .error .fuel := by
+  unfold parseValue
+  refine NoFuel.bind (noFuel_readU32 _) ?_
+  rintro ⟨n, r⟩ _
+  simp only []
+  split
+  · simp [NoFuel]
+  · exact parseSignersF_fuel_ok v3 _ r (by omega)
+
+theorem parseScheme_fuel_ok (sc : Scheme) (f : Bytes) : parseScheme sc f ≠ .error .fuel := by
+  unfold parseScheme
+  simp only []
+  split
+  · split
+    · rename_i e he
+      have := parseOuter_fuel_ok f
+      rw [he] at this
+      simpa using this
+    · simp
+  · split
+    · simp
+    · split
+      · simp
+      · exact parseValue_fuel_ok _ _
+
 end AgVerif.SigBlock
